@@ -34,6 +34,12 @@ def cases(tier, seed):
                 continue
             for r in range(reps):
                 out.append(dict(kind="routing", cfg=cfg, family=fam, B=16, s=rnd.randrange(10**6)))
+    # a few instances at the library's production sizes (size-keyed tables, algorithm switches above a size, long episodes)
+    if tier == "quick":
+        for cfg in [c for c in envzoo.routing_configs((50,)) if c["env"] != "mtvrp" or c.get("preset") in ("all", "ovrpbltw")] + [c for c in envzoo.routing_configs((100,)) if c["env"] in ("tsp", "cvrp", "op", "pctsp")]:
+            if cfg.get("vcap") or cfg.get("prize_required") or cfg.get("dense") or cfg.get("speed"):
+                continue
+            out.append(dict(kind="routing", cfg=cfg, family="gen", B=4, s=rnd.randrange(10**6)))
     # instances of another size than the env's generator makes (size-agnostic envs only)
     for cfg in envzoo.routing_configs((6,) if tier == "quick" else (6, 10)):
         if cfg["env"] in envzoo.SIZE_AGNOSTIC and not cfg.get("dense") and (cfg["env"] != "mtvrp" or cfg.get("preset") in ("all", "vrptw", "ovrpbltw", "vrpb")):
